@@ -54,7 +54,7 @@ CLAIMS = {
             "Decides: the BLS caches can only ever contain valid encodings (so earlier or failed runs cannot change a later outcome); Atom equality/hash are by bytes; the 37 places that branch on the storage form of an atom are exactly the audited ones and their inline arm fails only as the heap arm can; the 5 users of randomness are the audited ones and the drawn value only indexes the split accumulators. A NEW function that branches on the storage form is reported as unaudited. Not the semantic equality of the two arms' arithmetic.",
             "Trusts rustc's MIR; negating a valid compressed point by flipping bit 0x20 yields a valid encoding (BLS encoding fact); allocator-limit interplay excluded by the property itself.",
             "DESIGN.md 4/C03"),
-    "C05": ("cfg-gate scanner + cross-configuration comparison of MIR call sequences (default vs no-fastpath vs counters+pre-eval), constant-table relation for the inline path lookup, ordering rule in the u64 fast paths, hash-table validation with hashlib",
+    "C05": ("multiset equality of flag-guarded rejection thresholds between the default and the no-fastpath build of every function, cfg-gate scanner + cross-configuration comparison of MIR call sequences (default vs no-fastpath vs counters+pre-eval), constant-table relation for the inline path lookup, ordering rule in the u64 fast paths, hash-table validation with hashlib",
             "Decides: only audited functions have fast paths; the inline path lookup charges the zero-byte surcharge exactly at bit lengths that are multiples of 8 and uses the same constants/direction as the generic lookup; the add/sub fast paths measure the accumulator before updating it and check before updating; all 37 precomputed hashes are correct and indexed under a bound; outside cfg-gated lines the three builds make identical calls in identical order, and gated diagnostic code only accounts / calls callbacks / writes counter fields. Not arithmetic equality of native and bignum sums.",
             "Trusts the line-range scanner for cfg attributes (bracket matching) and rustc's MIR in three feature configurations.",
             "DESIGN.md 4/C05"),
@@ -70,7 +70,7 @@ CLAIMS = {
             "Decides the table clause: the length-prefix rows of the writer, of the two length functions, of the canonical check and the decoder caps are mutually consistent and each n-byte row ends at 2^(7n-1) (shortest prefix). ALL rows of ALL five tables; not decode(encode(x)) == x.",
             "Trusts rustc's MIR and constant evaluation; u32 truncation of atom lengths in serialized_length_atom is harmless because the heap limit is <= u32::MAX (C13/R13c). Round-trip on trees is not decided.",
             "DESIGN.md 4/C15"),
-    "C16": ("table rules of C15 + constant agreement across modules, call-graph routing (every decoder reaches the one prefix decoder; who-may-call leading_ones), SCC computation on the resolved call graph (trait calls expanded to all impls), comparison normal forms for short-read tests, explicit-panic inventory",
+    "C16": ("table rules of C15 + constant agreement across modules, call-graph routing (every decoder reaches the one prefix decoder; who-may-call leading_ones), SCC computation on the resolved call graph (trait calls expanded to all impls), comparison normal forms for short-read tests, explicit-panic inventory, operator-shape rule for every test against MAX_SINGLE_BYTE, the in-bounds verifier of C25 over everything reachable from the decoders",
             "Decides: the canonical check and the writer/decoder tables agree (C15 rules); the 14 duplicated wire constants agree; all 8 decoders/probes use decode_size_with_offset and compare the first byte only with the protocol constants; no function reachable from decoders, serializers, tree hashers or run_program is recursive (259 functions, no SCC); body-consuming helpers fail on short reads; explicit panic sites in decoder code are audited. Not equal consumption / equal trees across decoders (value properties).",
             "Trusts rustc's MIR and callee resolution; unresolved trait calls are over-approximated by all local impls.",
             "DESIGN.md 4/C16"),
@@ -78,7 +78,7 @@ CLAIMS = {
             "Decides: no HashMap/HashSet iteration is reachable from the compressing serializers (96 functions); a back-reference is emitted only when marker + path length <= length of the node replaced, in BOTH path finders, and never for nodes under 4 bytes; the serializer mirrors the decoder's stack (one read-cache push per written atom/back-reference after the write succeeded, one pop-two-and-cons per cons, left child written first). Not round-trip or canonicity of the output.",
             "Trusts rustc's MIR; PathBuilder::serialized_length and atom_length_bits are covered by C15's tables.",
             "DESIGN.md 4/C17"),
-    "C18": ("dominance ordering of fallible step -> ghost-pair -> push in the vector-stack decoder, pairing of remove_ghost_pair/new_pair in the materialising loop, comparison-set equality of the two path walkers' loop control, call-shape comparison of the length probe with the list-stack decoder",
+    "C18": ("in-bounds verifier of C25 over both back-reference decoders and the length probe (no out-of-range index on any byte string: proved or by a listed invariant), dominance ordering of fallible step -> ghost-pair -> push in the vector-stack decoder, pairing of remove_ghost_pair/new_pair in the materialising loop, comparison-set equality of the two path walkers' loop control, call-shape comparison of the length probe with the list-stack decoder",
             "Decides the allocation-count parity clause (pair counts of both decoders agree per event class, also on failing inputs), that both decoders share the atom/path parsers and call the callback once per back-reference, that the two path walkers have identical loop control and direction, and that the length probe mirrors the list-stack decoder and reports the cursor. Not that both decoders build identical trees.",
             "Trusts rustc's MIR; the acceptance sets being equal rests on the shared parsers plus identical path-walk control, not on a value-level comparison.",
             "DESIGN.md 4/C18"),
@@ -86,7 +86,7 @@ CLAIMS = {
             "Decides: every piece of Serializer and TreeCache state mutated by add/update/push/pop is restored from the checkpoint or is an audited inert cache; both checkpoint types are fully consumed; the checkpoint precedes the first mutation; the salt and salted hashes are read only where entries are created; pairs holding the sentinel get length 0; the incremental loop mirrors the decoder's stack. Known finding: parent links written by update() are not undone (a concrete history decodes to a different tree). Not that the final bytes decode to the assembled tree in general.",
             "Trusts rustc's MIR and the field-write recogniser; 'inert' is an audited judgement per field, stated in the rule.",
             "DESIGN.md 4/C19"),
-    "C20": ("constant relation evaluated over extracted decoder caps and the magic bytes, switch-table extraction of the instruction numbering on both sides, sequence/set comparison of header validations between decoder and probe, origin tracking of allocation sizes, accept-condition normalisation of the varint range tests",
+    "C20": ("in-bounds verifier of C25 over the serde_2026 decoders and the length probe, constant relation evaluated over extracted decoder caps and the magic bytes, switch-table extraction of the instruction numbering on both sides, sequence/set comparison of header validations between decoder and probe, origin tracking of allocation sizes, accept-condition normalisation of the varint range tests",
             "Decides: the classic prefix decoder rejects the magic by its own caps; writer and reader agree on 0 / +1 / -1 / i+2 / -(j+2) and on the operand order of both cons opcodes, with bounds-checked tables; decoder and probe validate the same varints with the same calls and reject the same header values, the probe reports magic + cursor and bounds its skips; every allocation size is constant or bounded by max_atom_len; write_varint and the strict size function accept the same ranges over 7+7k bits. Not round-trip, nor totality beyond explicit sites.",
             "Trusts rustc's MIR. The probe/decoder comparison identifies header quantities by local names with one alias (atom_len = length): a rename on one side is reported.",
             "DESIGN.md 4/C20"),
